@@ -399,14 +399,21 @@ def _lose_owner(w: World, a: ScriptedAddon, beh: str, si: int, ri: int) -> str:
     env = w.env
     cd = a.held.cap_data
     had = "+".join(n for n, ref in (("session", cd.session), ("region", cd.region)) if ref is not None and ref() is not None) or "no refs"
+    a.seen_plain = (cd.cap_name, cd.type.name, cd.base_url)        # what must still be in the callback state
     if beh == "take_drop_region":
-        sess = env.sessions[si]
-        region = sess.regions[ri]
+        region = cd.region() if cd.region is not None else None    # the region the flow is attributed to, if any
+        sess = region.session() if region is not None else env.sessions[si]
+        if region is None:
+            region = sess.regions[ri]
         region.mark_dead()
         sess.regions.remove(region)
         del region, sess
     else:
-        sess = env.sessions.pop(si)
+        sess = cd.session() if cd.session is not None else None
+        if sess is None:
+            sess = env.sessions[si]
+        if sess in env.sessions:            # (a login response's session was created by the pump itself)
+            env.sessions.remove(sess)
         env.sm.close_session(sess)
         del sess
     del cd
